@@ -84,6 +84,44 @@ plan("C15", jobs=lambda tier: seq_jobs("C15", tier), level="exploration", rule=S
      technique="runtime monitor: reference model with offline set + tree entry snapshots around change_tree")
 
 
+def unit_jobs(engine, prop, tier, quick_s=20, thorough_s=240, geoms=("th2", "th1", "th8", "16k", "16k_th2")):
+    if tier == "quick":
+        return [job(engine, prop, "default", "vdev", shards=12, budget_s=quick_s),
+                job(engine, prop, "default", "vrel", shards=4, budget_s=quick_s)]
+    js = [job(engine, prop, "default", "vdev", shards=8, budget_s=thorough_s, args=["--thorough"]),
+          job(engine, prop, "default", "vrel", shards=3, budget_s=thorough_s, args=["--thorough"])]
+    for g in geoms:
+        js.append(job(engine, prop, g, "vdev", shards=1, budget_s=thorough_s, args=["--thorough"]))
+    return js
+
+
+def classes_nontrivial(m):
+    return max(m["extra"].get("x_distinct_classes", [0]))
+
+
+plan("C23", jobs=lambda tier: unit_jobs("row", "C23", tier, geoms=()), level="exploration", min_nontrivial=500,
+     nontrivial=classes_nontrivial,
+     rule=("the compiled first_zeros_aligned (feature verif re-export) against a block-by-block reference loop on structured "
+           "families (listed in observed_tuples; complete for the small block alphabets) and random/density-biased rows. "
+           "distinct_nontrivial = distinct (order, returned offset or none, popcount of row) triples observed in one shard (maximum over shards, conservative)"),
+     technique="runtime differential monitor: compiled row search vs reference loop on enumerated + random rows")
+plan("C16", jobs=lambda tier: unit_jobs("sort", "C16", tier, geoms=("th2",)), level="exploration", min_nontrivial=100,
+     nontrivial=classes_nontrivial,
+     rule=("SortedBuffer<N> for N=1..8 on every key sequence of length <= 8 over domains of size 2..4 (complete) and random long "
+           "sequences, against sort-and-take-top-N; Trees::search_best::<1|3|8> over 9-20 real trees with a recording access "
+           "callback against a reference scan. distinct_nontrivial = distinct (capacity, sequence) cases longer than the capacity "
+           "plus tree searches with more imperfect candidates than capacity, in one shard (maximum over shards)"),
+     technique="runtime differential monitor: sorted buffer and tree search vs sort-and-take-N reference")
+plan("C12", jobs=lambda tier: unit_jobs("lower", "C12", tier), level="exploration", min_nontrivial=30,
+     nontrivial=classes_nontrivial,
+     rule=("allocation patterns of one tree installed through the public lower-level API (each huge frame / aligned sub-block empty, "
+           "full, whole-huge, single free, single allocated, random; exactly-one-free-block patterns at first/last/random position), "
+           "then lower.get(row hint, order, None) for every order 0..TREE_ORDER from every row hint, judged by a reference scan of the "
+           "pattern; success must mark exactly the returned block. distinct_nontrivial = distinct (order, found, row distance from hint) "
+           "outcomes in one shard (maximum over shards)"),
+     technique="runtime differential monitor: in-tree search vs reference scan of installed patterns")
+
+
 # ------------------------------------------------------------------------------------------------
 # Execution
 
